@@ -71,6 +71,11 @@ def fixed_cases():
         ("ps_after_group", "{ false | true; }; echo \"A ${PIPESTATUS[*]}\"; false | true; { :; }; echo \"B ${PIPESTATUS[*]}\""),
         ("ps_after_flow", "true | false; for i in; do :; done; echo \"F ${PIPESTATUS[*]}\"; false | true; if false; then :; fi; echo \"G ${PIPESTATUS[*]}\"; true | false | true; case x in y) :;; esac; echo \"H ${PIPESTATUS[*]}\"; false | true; while false; do :; done; echo \"I ${PIPESTATUS[*]}\""),
         ("ps_after_others", "false | true; { :; } | cat; echo \"J ${PIPESTATUS[*]}\"; false | true; ( exit 3 ); echo \"K ${PIPESTATUS[*]}\"; false | true; (( 0 )); echo \"L ${PIPESTATUS[*]}\"; false | true; [[ a == b ]]; echo \"M ${PIPESTATUS[*]}\"; ! { true | false; }; echo \"N ${PIPESTATUS[*]} $?\""),
+        # many internal stages alive at once with more data than the pipes between them hold: every stage must be running for any to finish
+        ("four_internal_big", "P() { gen 400000; }; F() { cat; }; P | F | { F; } | ( F ) > out; cksum < out; echo \"st=$? ps=${PIPESTATUS[*]}\""),
+        ("seven_internal_big", "P() { gen 500001; }; F() { cat; }; P | F | { F; } | ( F ) | while IFS= read -r l; do echo \"$l\"; done | { F; } | ( F | F ) | cksum; echo \"ps=${PIPESTATUS[*]}\""),
+        ("nested_internal_big", "P() { gen 300000; }; F() { cat; }; P | { F | { F | ( F | F ); }; } | { F | F; } | cksum; echo \"ps=${PIPESTATUS[*]}\""),
+        ("twelve_builtin_stages", "F() { cat; }; gen 70000 | F | F | F | F | F | F | F | F | F | F | F | F | cksum"),
         ("ps_after_function", "f() { false | true; }; f; echo \"E ${PIPESTATUS[*]}\"; true | false | true; x=1; echo \"D ${PIPESTATUS[*]}\""),
     ]
 
